@@ -2,7 +2,21 @@
 // of xcp (copy_permissions only warns), so failures bump `tolerated`, never `faults`.
 #[verifier::external_body]
 pub struct OsString { x: u8 }
-impl OsString { pub uninterp spec fn name(&self) -> Seq<u8>; }
+impl OsString {
+    pub uninterp spec fn name(&self) -> Seq<u8>;
+    /// Some iff the bytes are valid UTF-8; then the same bytes
+    #[verifier::external_body]
+    pub fn to_str(&self) -> (r: Option<&str>)
+        ensures (r is Some) == valid_utf8(self.name()), r is Some ==> str_bytes(r->Some_0) == self.name(),
+    { unimplemented!() }
+}
+pub uninterp spec fn valid_utf8(b: Seq<u8>) -> bool;
+pub uninterp spec fn str_bytes(s: &str) -> Seq<u8>;
+/// anything the xattr crate accepts as an attribute name (AsRef<OsStr>)
+pub trait XName { spec fn xname(&self) -> Seq<u8>; }
+impl XName for OsString { open spec fn xname(&self) -> Seq<u8> { self.name() } }
+impl XName for &OsString { open spec fn xname(&self) -> Seq<u8> { self.name() } }
+impl XName for &str { open spec fn xname(&self) -> Seq<u8> { str_bytes(*self) } }
 
 #[verifier::external_body]
 pub struct XAttrs { x: u8 }
@@ -35,7 +49,7 @@ impl File {
     { unimplemented!() }
 
     #[verifier::external_body]
-    pub fn get_xattr(&self, name: &OsString, Tracked(w): Tracked<&mut World>) -> (r: std::result::Result<Option<Vec<u8>>, io::Error>)
+    pub fn get_xattr<N: XName>(&self, name: N, Tracked(w): Tracked<&mut World>) -> (r: std::result::Result<Option<Vec<u8>>, io::Error>)
         ensures
             final(w).files == old(w).files && final(w).cursor == old(w).cursor && final(w).paths == old(w).paths && final(w).trace == old(w).trace
             && final(w).faults == old(w).faults && final(w).errno == old(w).errno && final(w).eintr_left == old(w).eintr_left
@@ -43,12 +57,12 @@ impl File {
             final(w).tolerated == old(w).tolerated + (if r is Err { 1nat } else { 0 }),
             r is Ok ==> ({
                 let xs = old(w).files[self.inode()].xattrs;
-                match r->Ok_0 { Some(v) => xs.contains_key(name.name()) && v@ == xs[name.name()], None => !xs.contains_key(name.name()) }
+                match r->Ok_0 { Some(v) => xs.contains_key(name.xname()) && v@ == xs[name.xname()], None => !xs.contains_key(name.xname()) }
             }),
     { unimplemented!() }
 
     #[verifier::external_body]
-    pub fn set_xattr(&self, name: OsString, val: &[u8], Tracked(w): Tracked<&mut World>) -> (r: std::result::Result<(), io::Error>)
+    pub fn set_xattr<N: XName>(&self, name: N, val: &[u8], Tracked(w): Tracked<&mut World>) -> (r: std::result::Result<(), io::Error>)
         ensures
             final(w).cursor == old(w).cursor && final(w).paths == old(w).paths
             && final(w).faults == old(w).faults && final(w).errno == old(w).errno && final(w).eintr_left == old(w).eintr_left
@@ -57,7 +71,7 @@ impl File {
                 Ok(_) => {
                     let i = self.inode(); let f = old(w).files[i];
                     &&& final(w).tolerated == old(w).tolerated
-                    &&& final(w).files == old(w).files.insert(i, FileState { xattrs: f.xattrs.insert(name.name(), val@), ..f })
+                    &&& final(w).files == old(w).files.insert(i, FileState { xattrs: f.xattrs.insert(name.xname(), val@), ..f })
                     &&& final(w).trace == old(w).trace.push(Event::SetXattr(i))
                 },
                 Err(_) => final(w).tolerated == old(w).tolerated + 1 && final(w).files == old(w).files && final(w).trace == old(w).trace,
